@@ -196,10 +196,15 @@ HookWhy(n, env) ==
          /\ x.c[1].c[1].t = "Identifier" /\ x.c[1].c[2].t = "Identifier"
          /\ x.c[1].c[2].v = "apply" ->
          \* M.apply(R, [e...])  ->  (M, R, e...)   ;  M.apply(...s) -> (M, ...s)
-         IF Len(Args(x)) = 2 /\ ~IsSpreadArg(Args(x)[1]) /\ ~IsSpreadArg(Args(x)[2])
+         IF Len(Args(x)) >= 2 /\ ~IsSpreadArg(Args(x)[1]) /\ ~IsSpreadArg(Args(x)[2])
             /\ StripParen(Args(x)[2].c[1]).t = "ArrayExpression"
-         THEN Judge(<< <<x.c[1].c[1], FALSE>>, <<Args(x)[1].c[1], FALSE>> >>
-                    \o ApplyElems(StripParen(Args(x)[2].c[1])))
+         THEN \* arguments after the array are evaluated but ignored by apply: handing them to the
+              \* hook or not are both accepted
+              Either(Judge(<< <<x.c[1].c[1], FALSE>>, <<Args(x)[1].c[1], FALSE>> >>
+                           \o ApplyElems(StripParen(Args(x)[2].c[1]))),
+                     Judge(<< <<x.c[1].c[1], FALSE>>, <<Args(x)[1].c[1], FALSE>> >>
+                           \o ApplyElems(StripParen(Args(x)[2].c[1]))
+                           \o ExpectedOfArgs(SubSeq(Args(x), 3, Len(Args(x))))))
          ELSE IF Len(Args(x)) = 2 /\ IsSpreadArg(Args(x)[1]) /\ ~IsSpreadArg(Args(x)[2])
                  /\ StripParen(Args(x)[2].c[1]).t = "ArrayExpression"
          THEN \* M.apply(...s, [e...]): which value is the receiver and which the argument list is
